@@ -119,7 +119,7 @@ JA_LEX = {
     '。': ['S[mod=nm,form=base,fin=t]\\S[mod=nm,form=base,fin=f]'], 'た': ['S[mod=nm,form=base,fin=f]\\S[mod=nm,form=base,fin=f]'],
     '赤い': ['NP[case=nc,mod=X1,fin=X2]/NP[case=nc,mod=X1,fin=X2]', 'S[mod=adn,form=base,fin=f]'],
 }
-ADVERSARIAL = ['(', ')', '[', ']', '{', '}', '<', '>', 'a<b', 'x>y', '&', 'R&D', '"', "'", "it's", '/', 'a/b', 'naïve', '日本', '<L', 'T>', '|', '-LRB-', '.', ',', '!', 'a-b', '-', 'a.b', '100%', '#', 'a=b']
+ADVERSARIAL = ['(', ')', '[', ']', '{', '}', '<', '>', 'a<b', 'x>y', '&', 'R&D', '"', "'", "it's", '/', 'a/b', 'naïve', '日本', '<L', 'T>', '|', '-LRB-', '.', ',', '!', 'a-b', '-', 'a.b', '100%', '#', 'a=b', 'see-LRB-s-RRB-', 'a-RAB-b', '-LCB-x', 'x-RCB-', '-LAB-', 'p-LSB-q-RSB-']
 
 
 def jsonnet_table(name, key):
